@@ -72,7 +72,7 @@ def enterAll (g : G) : List Ref → Except Err (List Exit)
 def runExit (sub : List Nat) (refs : List Ref) : Exit → List Ref
   | .rewriteList o s => refs.filter (fun q => !(q.owner = o ∧ q.slot = s ∧ q.target ∈ sub))
   | .dropAttr o s => refs.filter (fun q => !(q.owner = o ∧ q.slot = s))
-  | .dropLinkElems cs => refs.filter (fun q => !(q.kind = .linkElem ∧ q.carrier ∈ cs))
+  | .dropLinkElems cs => refs.filter (fun q => !(q.carrier ∈ cs))   -- everything stored on a removed link element goes with it
 
 def purgedCarriers : List Exit → List Nat
   | [] => []
